@@ -7,8 +7,16 @@ From Emd Require Import Base.Prelude.
 
 Inductive num := NI (z : Z) | NF (f : float).
 
+(* int -> binary64, correctly rounded (numpy / CPython): up to 63 bits by the primitive conversion; beyond, the top 63
+   bits with a sticky bit for what is cut off, scaled back exactly *)
+Definition Z2F_pos (z : Z) : float :=
+  if (z <? 9223372036854775808)%Z then of_uint63 (Uint63.of_Z z)
+  else let e := (Z.log2 z - 62)%Z in
+       let m := Z.shiftr z e in
+       let sticky := if Z.eqb (Z.shiftl m e) z then 0%Z else 1%Z in
+       ldexp (of_uint63 (Uint63.of_Z (Z.lor m sticky))) e.
 Definition Z2F (z : Z) : float :=
-  if (z <? 0)%Z then PrimFloat.opp (of_uint63 (Uint63.of_Z (- z))) else of_uint63 (Uint63.of_Z z).
+  if (z <? 0)%Z then PrimFloat.opp (Z2F_pos (- z)) else Z2F_pos z.
 Definition tofloat (x : num) : float := match x with NI z => Z2F z | NF f => f end.
 
 Definition num_sub (a b : num) : num :=
